@@ -128,6 +128,7 @@ def run_engine(ob, cubes, workdir, tag):
         cmd.append("-cross")
     if ob.get("decide", True):
         cmd.append("-decide")
+    cmd += ["-maporder", ob.get("maporder", "fixed")]
     for k, v in ob.get("consts", {}).items():
         cmd += ["-const", "%s=%d" % (k, v)]
     t0 = time.time()
@@ -146,6 +147,10 @@ def run_engine(ob, cubes, workdir, tag):
 
 def run_obligation(ob, workdir):
     cubes = ob.get("cubes") or [{}]
+    mx = int(os.environ.get("VERIF_MAXCUBES", "0"))
+    if mx and len(cubes) > mx:
+        step = len(cubes) / mx
+        cubes = [cubes[int(i * step)] for i in range(mx)]
     nchunk = max(1, min(NCPU, ob.get("procs", NCPU), len(cubes)))
     chunks = [cubes[i::nchunk] for i in range(nchunk)]
     with ThreadPoolExecutor(max_workers=nchunk) as tp:
